@@ -1434,7 +1434,11 @@ def ss_cfg_sx(cf):
 
 
 def ss_line(c):
-    return '%d (%s %s)' % (U['score_to_simple'], ss_cfg_sx(c['cfg']), sx([[[[cc, q(s_)] for cc, s_ in sorted(b)], w] for b, w in c['votes']]))
+    # wave 6: the flagged unit of Units_C12.v (BLOCK C12 + 5, score_to_simple_x) - the repairs the library under test carries
+    # (truncation stops at the middle, counted aggregates; probed by props/c12.py) are part of the model's argument
+    import props.c12 as c12
+    return '%d (%s %s %s)' % (BLOCK['C12'] + 5, c12.REPAIRS(c), ss_cfg_sx(c['cfg']),
+                              sx([[[[cc, q(s_)] for cc, s_ in sorted(b)], w] for b, w in c['votes']]))
 
 
 def ss_run(c, votes=None):
